@@ -124,9 +124,13 @@ func c08Deviations() []reqDev {
 	add("time-local-zone", "time", "", func(r *reqSpec) { r.signingTime = r.signingTime.Local() })
 	// expiry
 	add("expiry+1s", "expiry", "", func(r *reqSpec) { r.expiry = r.signingTime.Truncate(time.Second).Add(time.Second) })
-	add("expiry+1s-with-fraction", "expiry", "", func(r *reqSpec) { r.expiry = r.signingTime.Truncate(time.Second).Add(time.Second + 700*time.Millisecond) })
+	add("expiry+1s-with-fraction", "expiry", "", func(r *reqSpec) {
+		r.expiry = r.signingTime.Truncate(time.Second).Add(time.Second + 700*time.Millisecond)
+	})
 	add("expiry-far", "expiry", "", func(r *reqSpec) { r.expiry = time.Date(9999, 12, 31, 23, 59, 59, 0, time.UTC) })
-	add("expiry-other-zone", "expiry", "", func(r *reqSpec) { r.expiry = r.signingTime.Truncate(time.Second).Add(time.Second).In(time.FixedZone("", -3*3600)) })
+	add("expiry-other-zone", "expiry", "", func(r *reqSpec) {
+		r.expiry = r.signingTime.Truncate(time.Second).Add(time.Second).In(time.FixedZone("", -3*3600))
+	})
 	// extended attributes
 	vals := []struct {
 		n string
@@ -435,7 +439,9 @@ func init() {
 		Assumptions: []string{"attribute integer values stay below 2^53 here (the float64 surface is C13's finding)", "lone surrogates / invalid UTF-8 inside JWS strings are not generated (not valid JSON text)"},
 		Init:        func(mc.Tier) (int, error) { wideChain("p256-e", 2); return len(wideChains), nil },
 		Scenarios:   c08Scenarios,
-		Alphabet:    func(mc.Tier) map[string]int { return map[string]int{"variations": len(c08Devs), "slots": 10, "key_specs": 6} },
+		Alphabet: func(mc.Tier) map[string]int {
+			return map[string]int{"variations": len(c08Devs), "slots": 10, "key_specs": 6}
+		},
 		Guards: func(s *mc.Stats, t mc.Tier) []string {
 			var w []string
 			if s.Outcomes["roundtrip"] == 0 {
